@@ -59,8 +59,8 @@ class C07(Prop):
         ("F", "trace2s is defined on every tree with unique ids and >= 2 nodes; the signed durations of a step sum to dt (C07_two_site_runs, C07_total_duration)"),
         ("F", "two nodes (any identifiers): the step consists of exactly two half-step two-site updates on the only edge and no backward site update "
               "(C07_two_node_trace); with the identity embedding the projected Hamiltonian is H (C07_two_node_projection)"),
-        ("F", "bounded, all trees <= 10 nodes: +dt on every edge, -(degree-1)dt on every node, every TwoSite event on an edge (C07_durations_bounded_10); the "
-              "(object, factor) sequence is a palindrome (C07_palindrome_bounded_10)"),
+        ("F", "on every tree the (object, signed factor) sequence of the step is a palindrome (C07_palindrome)"),
+        ("F", "bounded, all trees <= 10 nodes: +dt on every edge, -(degree-1)dt on every node, every TwoSite event on an edge (C07_durations_bounded_10)"),
         ("F", "bounded, all trees <= 9 nodes: centre on the updated pair, every block read fresh over two consecutive steps without re-initialisation, "
               "the step ends with the centre on update_path[0] (C07_schedule_ok_bounded_9)"),
         ("F", "the truncation rule keeps between 1 and max_bond_dim singular values (C07_bond_bounded = C10's select_spec)"),
@@ -77,7 +77,7 @@ class C07(Prop):
         rng = ctx.rng(stream)
         cases = []
         trees = list(S.SPECIAL_TREES)
-        for _ in range(ctx.scale(40, 500) * budget_scale):
+        for _ in range(ctx.scale(40, 1500) * budget_scale):
             trees.append(S.random_tree(rng, rng.choice([2, 3, 4, 5, 6, 7])))
         if stream != "main":
             rng.shuffle(trees)
@@ -85,11 +85,11 @@ class C07(Prop):
             cases.append({"par": par, "kind": "tdvp2s", "sub": "run", "seed": rng.randrange(10 ** 9), "herm": True, "coeffs": j % 4 == 0,
                           "ttno_shuffle": j % 2 == 0, "mode": "default" if j % 5 == 0 else "expm",
                           "nsteps": rng.choice([1, 2, 3]) if len(par) <= 5 else 1, "nterms": rng.choice([1, 2, 3])})
-        for rep in range(ctx.scale(16, 120) * budget_scale):
+        for rep in range(ctx.scale(16, 300) * budget_scale):
             cases.append({"par": [None, 0], "kind": "tdvp2s", "sub": "twonode", "seed": rng.randrange(10 ** 9), "herm": True,
                           "coeffs": rep % 2 == 0, "phys": [rng.choice([2, 3]), rng.choice([2, 3])], "bond": {1: rng.choice([1, 2, 3, 4])},
                           "mode": "expm", "nsteps": rng.choice([1, 2]), "nterms": rng.choice([2, 3, 4])})
-        for rep in range(ctx.scale(60, 600) * budget_scale):
+        for rep in range(ctx.scale(60, 2000) * budget_scale):
             par = rng.choice(trees)
             tr = {"max_bond": rng.choice([1, 1, 2, 3, 4]), "rel_tol": rng.choice([0.0, 1e-15, 1e-3, 0.3, 0.9, 2.0, float("-inf")]),
                   "total_tol": rng.choice([0.0, 1e-15, 1e-2, 1.0, 1e3, float("-inf")]), "sum_trunc": rep % 3 == 0, "renorm": rep % 4 == 0}
